@@ -362,6 +362,9 @@ def measure_rule(ctx):
 
 
 def run(ctx):
+    from ..shared import state_alias_rule as _state_alias_rule
+
+    _state_alias_rule(ctx, "R8.11", scope=lambda f, _s=("EasyFEA.FEM._group_elem", "EasyFEA.FEM._mesh"): f.module.name.startswith(_s), min_instances=50)
     # 'before and after the mesh is moved or mirrored': no memo of a geometric quantity survives a change of the coordinates
     from ..shared import memo_rule as _memo_rule, cached_param_rule as _cached_param_rule
 
